@@ -96,15 +96,28 @@ structure Cfg where
   queues : List (Nat × Nat)
   deriving Repr, DecidableEq
 
+/-- arguments of `add_object` the scheduler reads (`ObjectDesc` + `TransferConfig`) -/
+structure AddArgs where
+  prio : Nat
+  nSym : Nat
+  maxCount : Nat
+  carousel : Option Carousel
+  start : Option Nat
+  target : Option Target
+  allowStop : Bool
+  deriving Repr, DecidableEq
+
 /-- everything that happens, newest first -/
 inductive Ev where
-  | opAdd (toi : Nat) (ok : Bool)
+  | opAdd (toi : Nat) (a : AddArgs) (ok : Bool)
   | opRemove (toi : Nat) (ok : Bool)
   | opPublish (now : Nat)
-  | opTrigger (toi : Nat) (ts : Option Nat) (ok : Bool)
+  /-- `applied`: the object was found and not in transfer, so the reset took place -/
+  | opTrigger (toi : Nat) (ts : Option Nat) (applied : Bool)
   | opRead (now : Nat)
   | pub (now k : Nat) (files : List Nat)
-  | start (now toi : Nat)
+  /-- `StartTransfer`; `st` = transfer start time in effect, `tick` = pacing tick of this transfer -/
+  | start (now toi : Nat) (st : Option Nat) (tick : Option Nat)
   | stop (now toi : Nat)
   | fdtStart (now k : Nat)
   | fdtStop (now k : Nat)
@@ -317,7 +330,9 @@ def tkGet (ticks : List (Nat × Nat)) (toi : Nat) : Nat :=
 
 /-- removal from the waiting queue, `StartTransfer` event, `transfer_started` -/
 def fileStartStep (s : State) (t now tk : Nat) : State :=
-  { emit { s with queue := s.queue.erase t } (.start now t) with
+  let st : Option Nat := match getF s.objs t with | some f => f.info.startTime | none => none
+  let tick : Option Nat := match getF s.objs t with | some f => (if wantsTick f then some tk else none) | none => none
+  { emit { s with queue := s.queue.erase t } (.start now t st tick) with
     objs := updF s.objs t (fun f => transferInit f now tk) }
 
 /-- automatic publication at transfer start (`ObjectsBeingTransferred`) -/
@@ -496,28 +511,18 @@ def init (cfg : Cfg) (fdtPkts : List Nat) : State :=
       { prio := p, index := 0, slots := List.replicate (if m = 0 then 1 else m) none }),
     nextToi := 1, log := [], panic := none }
 
-structure AddArgs where
-  prio : Nat
-  nSym : Nat
-  maxCount : Nat
-  carousel : Option Carousel
-  start : Option Nat
-  target : Option Target
-  allowStop : Bool
-  deriving Repr, DecidableEq
-
 /-- `allocate_toi` + `Sender::add_object`; `none` = `Err` -/
 def addObject (s : State) (a : AddArgs) : State × Option Nat :=
   let toi := s.nextToi
   let s := { s with nextToi := s.nextToi + 1 }
-  if !(s.sessions.any (fun q => q.prio == a.prio)) then (emit s (.opAdd toi false), none) else
-  if s.complete then (emit s (.opAdd toi false), none) else
+  if !(s.sessions.any (fun q => q.prio == a.prio)) then (emit s (.opAdd toi a false), none) else
+  if s.complete then (emit s (.opAdd toi a false), none) else
   let fd : FileDesc :=
     { key := toi, isFdt := false, fdtId := 0, content := [], prio := a.prio, nSym := a.nSym,
       maxCount := a.maxCount, carousel := a.carousel, target := a.target, allowStop := a.allowStop,
       published := false, info := { startTime := a.start } }
   let s := { s with objs := s.objs ++ [fd], files := s.files ++ [toi], queue := s.queue ++ [toi] }
-  (emit s (.opAdd toi true), some toi)
+  (emit s (.opAdd toi a true), some toi)
 
 /-- `Sender::remove_object` -/
 def removeObject (s : State) (toi : Nat) : State × Bool :=
@@ -528,7 +533,7 @@ def removeObject (s : State) (toi : Nat) : State × Bool :=
 /-- `Sender::trigger_transfer_at` -/
 def triggerTransferAt (s : State) (toi : Nat) (ts : Option Nat) : State × Bool :=
   if !s.files.contains toi then (emit s (.opTrigger toi ts false), false) else
-  if isTransferring s toi then (emit s (.opTrigger toi ts true), true) else
+  if isTransferring s toi then (emit s (.opTrigger toi ts false), true) else
   let s := { s with objs := updF s.objs toi (fun f => resetLastTransfer f ts) }
   (emit s (.opTrigger toi ts true), true)
 
